@@ -56,7 +56,7 @@ def run(ctx):
     for c in cases:
         ctx.count(("g", tuple(map(tuple, c["edges"])), tuple(c["latents"]), len(c["nodes"])), nontrivial=len(c["edges"]) > 0, n=0)
     # --- RECORD -> VALIDATE on larger random DAGs
-    ntr = 600 if ctx.thorough else 96
+    ntr = 2400 if ctx.thorough else 192
     payloads = [(hs, {"seed": ctx.seed * 7919 + hs, "n": ntr // len(hseeds), "tid0": i * 100000})
                 for i, hs in enumerate(hseeds)]
     traces = []
@@ -132,7 +132,7 @@ def _build(case, rng, cls="DAG"):
     from pgmpy.base import DAG
     from pgmpy.models import BayesianNetwork
     from ..concretise import var_names, shuffled
-    nm = var_names(case["nodes"], rng)
+    nm = var_names(case["nodes"], rng, rng.choice(["str", "str", "int", "tuple"]))
     if cls == "NB":          # star-shaped case: NaiveBayes overrides the d-separation helpers
         from pgmpy.models import NaiveBayes
         dep = case["edges"][0][0]
@@ -162,7 +162,7 @@ def _obs_form(z, nm, rng):
     k = rng.randrange(4)
     if not zs:
         return rng.choice([None, [], (), set()])
-    if len(zs) == 1 and k == 0:
+    if len(zs) == 1 and k == 0 and not isinstance(zs[0], tuple):      # (a bare tuple-valued name is ambiguous with a collection)
         return zs[0]
     return [list, tuple, set, list][k](zs)
 
@@ -186,6 +186,8 @@ def replay_gen(payload):
                       "observed": obs, "expected": exp})
 
     for ci, case in enumerate(payload["cases"]):
+        # (one generator per case, derived from the case itself: a replay of a single case makes the same choices)
+        rng = random.Random(f"{payload['seed']}|{case['edges']}|{case['latents']}|{len(case['nodes'])}")
         g, nm, inv = _build(case, rng, rng.choice(["DAG", "BN"]))
         lat = set(case["latents"])
         n0 = len(fails)
@@ -220,7 +222,7 @@ def replay_gen(payload):
             ncalls += 1
             if {inv[v] for v in mb} != set(case["blanket"][n]) or len(mb) != len(set(mb)):
                 fail("markov_blanket", "markov_blanket.set", case, {"x": n, "ret": sorted(inv[v] for v in mb)}, case["blanket"][n])
-            li = g.local_independencies(nm[n])
+            li = g.local_independencies([nm[n]] if isinstance(nm[n], tuple) or rng.random() < 0.3 else nm[n])
             ncalls += 1
             if {_tkey(_trip(a, inv)) for a in li.get_assertions()} != {_tkey(t) for t in case["local"][n]}:
                 fail("local_independencies", "local_independencies.set", case, {"x": n, "ret": [_trip(a, inv) for a in li.get_assertions()]}, case["local"][n])
@@ -268,6 +270,119 @@ def _rand_dag(rng, n):
     return {"nodes": nodes, "edges": edges, "latents": lat}
 
 
+EDIT_OPS = ("add_edge", "remove_edge", "remove_node", "add_node", "do")
+
+
+def _reach(edges, a):
+    seen, todo = {a}, [a]
+    while todo:
+        u = todo.pop()
+        for p, c in edges:
+            if p == u and c not in seen:
+                seen.add(c)
+                todo.append(c)
+    return seen
+
+
+def _plan_edits(case, queries, rng, cls):
+    """edit the SAME object between queries and ask again (the old questions first: an answer remembered from before the edit is wrong
+    now).  The shadow graph below only steers the planning; what each edit must do is decided by Trace_C08 (EditPre / EditEff)."""
+    all_nodes = list(case["nodes"])
+    nodes, edges, lat = set(all_nodes), {tuple(e) for e in case["edges"]}, set(case["latents"])
+    out = []
+    for _ in range(rng.choice([1, 2, 2, 3])):
+        kinds = ["add_edge", "add_edge", "add_node"]
+        if edges:
+            kinds += ["remove_edge"] * 3 + ["do"] * 2
+        if len(nodes) > 2:
+            kinds += ["remove_node"]
+        op = rng.choice(kinds)
+        if op == "remove_edge":
+            x, y = rng.choice(sorted(edges))
+            out.append({"op": op, "x": x, "y": y})
+            edges.discard((x, y))
+        elif op == "add_edge":
+            x, y = rng.sample(all_nodes, 2)
+            closes = x in nodes and y in nodes and x in _reach(edges, y)
+            if closes and cls == "DAG":
+                x, y = y, x          # (the base class checks acyclicity in its constructor only: its add_edge is not asked to refuse)
+                closes = x in _reach(edges, y)
+                if closes:
+                    continue
+            out.append({"op": op, "x": x, "y": y})
+            if not closes:
+                nodes |= {x, y}
+                edges.add((x, y))
+        elif op == "remove_node":
+            x = rng.choice(sorted(nodes))
+            out.append({"op": op, "x": x})
+            nodes.discard(x)
+            lat.discard(x)
+            edges = {e for e in edges if x not in e}
+        elif op == "add_node":
+            x = rng.choice(all_nodes)
+            fl = rng.random() < 0.3
+            out.append({"op": op, "x": x, "incl": fl})
+            nodes.add(x)
+            if fl:
+                lat.add(x)
+        else:
+            z = rng.sample(sorted(nodes), rng.choice([1, 1, 2]) if len(nodes) > 1 else 1)
+            out.append({"op": op, "z": z})
+            edges = {e for e in edges if e[1] not in z}
+        out.append({"op": "graph"})
+        # ---- ask again
+        again = []
+        for q in queries:
+            if q["op"] == "active_trail" and q["x"] in nodes:
+                again.append(dict(q, z=[v for v in q["z"] if v in nodes]))
+            elif q["op"] == "is_dconnected" and q["x"] in nodes and q["y"] in nodes and q["y"] not in lat:
+                again.append(dict(q, z=[v for v in q["z"] if v in nodes]))
+            elif q["op"] == "ancestral":
+                zz = [v for v in q["z"] if v in nodes]
+                if zz:
+                    again.append(dict(q, z=zz))
+        rng.shuffle(again)
+        out += again[:10]
+        ns = sorted(nodes)
+        out.append({"op": "markov_blanket", "x": rng.choice(ns)})
+        out.append({"op": "local_independencies", "x": rng.choice(ns)})
+        out.append({"op": "moralize"})
+        for _k in range(2):
+            if len(ns) >= 2:
+                x, y = rng.sample(ns, 2)
+                if (x, y) not in edges and (y, x) not in edges:
+                    out.append({"op": "minimal_dseparator", "x": x, "y": y})
+        if len(ns) <= 5:
+            out.append({"op": "get_independencies", "incl": rng.random() < 0.5})
+    return out
+
+
+def _edit_event(g, nm, inv, e):
+    op = e["op"]
+    try:
+        if op == "graph":
+            e["ret"] = sorted([inv[u], inv[v]] for u, v in g.edges())
+            e["retnodes"] = sorted(inv[v] for v in g.nodes())
+            e["z"] = sorted(inv[v] for v in g.latents if v in g.nodes())
+        elif op == "add_edge":
+            try:
+                g.add_edge(nm[e["x"]], nm[e["y"]])
+            except ValueError:
+                e["ok"] = False
+        elif op == "remove_edge":
+            g.remove_edge(nm[e["x"]], nm[e["y"]])
+        elif op == "remove_node":
+            g.remove_node(nm[e["x"]])
+        elif op == "add_node":
+            g.add_node(nm[e["x"]], latent=e["incl"])
+        elif op == "do":
+            g.do([nm[v] for v in e["z"]], inplace=True)
+    except Exception as ex:  # noqa
+        e["exc"] = repr(ex)[:300]
+    return e
+
+
 def _nb_event(g, nm, inv, e, rng):
     """one query on a NaiveBayes object (its own active_trail_nodes returns a set; the rest is inherited); exceptions are recorded"""
     op = e["op"]
@@ -311,7 +426,7 @@ def record(payload):
     if "rerun" in payload:
         t = payload["rerun"]
         specs = [({"nodes": t["nodes"], "edges": t["edges"], "latents": t["latents"], "cls": t.get("cls", "")}, t["tid"], t["seed"], [
-            {k: e[k] for k in e if k not in ("ret", "retnodes", "none", "exc")} for e in t["events"]])]
+            {k: e[k] for k in e if k not in ("ret", "retnodes", "none", "exc", "ok") and not (e["op"] == "graph" and k == "z")} for e in t["events"]])]
     else:
         rng0 = random.Random(payload["seed"])
         specs = []
@@ -328,7 +443,8 @@ def record(payload):
     for case, tid, seed, evs in specs:
         rng = random.Random(seed)
         nb = case.get("cls") == "NB"
-        g, nm, inv = _build(case, rng, "NB" if nb else rng.choice(["DAG", "BN"]))
+        cls = "NB" if nb else (case.get("cls") or rng.choice(["DAG", "BN"]))
+        g, nm, inv = _build(case, rng, cls)
         nodes, lat = case["nodes"], set(case["latents"])
         if evs is None:
             evs = []
@@ -349,13 +465,18 @@ def record(payload):
             evs.append({"op": "markov_blanket", "x": x})
             evs.append({"op": "local_independencies", "x": rng.choice(nodes)})
             evs.append({"op": "moralize"})
-            evs.append({"op": "ancestral", "z": rng.sample(nodes, rng.randint(1, 3))})
+            evs.append({"op": "ancestral", "z": rng.sample(nodes, rng.randint(1, min(3, len(nodes))))})
             if len(nodes) <= 5:
                 evs.append({"op": "get_independencies", "incl": rng.random() < 0.5})
+            if not nb:
+                evs += _plan_edits(case, evs, rng, cls)
         events = []
         for e in evs:
-            e = dict({"x": "", "y": "", "z": [], "incl": False, "none": False, "ret": [], "retnodes": []}, **e)
+            e = dict({"x": "", "y": "", "z": [], "incl": False, "none": False, "ret": [], "retnodes": [], "ok": True}, **e)
             op = e["op"]
+            if op in EDIT_OPS or op == "graph":
+                events.append(_edit_event(g, nm, inv, e))
+                continue
             if nb:
                 e = _nb_event(g, nm, inv, e, rng)
                 events.append(e)
@@ -372,7 +493,8 @@ def record(payload):
             elif op == "markov_blanket":
                 e["ret"] = sorted(inv[v] for v in g.get_markov_blanket(nm[e["x"]]))
             elif op == "local_independencies":
-                e["ret"] = [_trip(a, inv) for a in g.local_independencies(nm[e["x"]]).get_assertions()]
+                x_ = nm[e["x"]]
+                e["ret"] = [_trip(a, inv) for a in g.local_independencies([x_] if isinstance(x_, tuple) or rng.random() < 0.3 else x_).get_assertions()]
             elif op == "moralize":
                 mg = g.moralize()
                 e["ret"] = [sorted(inv[v] for v in ed) for ed in mg.edges()]
@@ -385,5 +507,5 @@ def record(payload):
                 e["ret"] = [_trip(a, inv) for a in g.get_independencies(include_latents=e["incl"]).get_assertions()]
             events.append(e)
         out.append({"tid": tid, "seed": seed, "hashseed": hs, "nodes": nodes, "edges": case["edges"], "latents": case["latents"],
-                    "cls": case.get("cls", ""), "events": events})
+                    "cls": cls, "events": events})
     return {"traces": out}
